@@ -45,6 +45,10 @@ def check(run):
     for sv in range(nsrv):
         for kd in ("own0", "other", "not-b64", "empty"):
             calls.append({"srv": sv, "kind": kd, "scheme": ["HTTPS", "Https"][sv % 2]})
+    # through a forwarding proxy (HTTPS_PROXY in the environment, C2 named c2.example): the pin is checked against the C2's certificate all the same
+    for sv in range(nsrv):
+        for kd in ("own0", "other", "own0-prefixed", "empty", "short"):
+            calls.append({"srv": sv, "kind": kd, "proxy": True})
     # overlapping calls: a second call runs to completion while the first is between configuring its client and connecting
     for sv in range(nsrv):
         for outer, inner in (("other", "own0"), ("empty", "own0"), ("own0", "other"), ("own0", "empty"), ("other", "other")):
@@ -55,7 +59,7 @@ def check(run):
         calls += [{"srv": g, "kind": "own0"}, {"srv": imp, "kind": "pin-of", "of": g}, {"srv": imp, "kind": "own0"}, {"srv": g, "kind": "pin-of", "of": imp},
                   {"srv": g, "kind": "own0-prefixed"}, {"srv": imp, "kind": "pin-of", "of": g}]
     inputs = [dict({"i": k, "srv": c["srv"], "kind": c["kind"]}, **dict(({"nested": dict(c["nested"], i=100000 + k)} if "nested" in c else {}), **({"of": c["of"]} if "of" in c else {}),
-                          **({"scheme": c["scheme"]} if "scheme" in c else {}))) for k, c in enumerate(calls)]
+                          **({"scheme": c["scheme"]} if "scheme" in c else {}), **({"proxy": True} if c.get("proxy") else {}))) for k, c in enumerate(calls)]
     res, err = vlib.run_drv(drv, "pin", [header] + inputs, args=[d], env=env, timeout=120)
     if err or not res or len(res) != len(inputs) + 1:
         run.oblige("pin driver ran all calls", False, "%s (%d results)" % (err, len(res or [])))
@@ -63,6 +67,10 @@ def check(run):
     spkis = res[0]["spkis"]
     run.oblige("process-wide HTTP defaults untouched at start", res[0].get("global_before", "") == "", res[0].get("global_before", ""))
     rs = res[1:]
+    nprox = sum(1 for i in inputs if i.get("proxy"))
+    run.oblige("calls naming the C2 c2.example really went through the forwarding proxy (%d CONNECTs for %d such calls which got as far as connecting)" % (
+               max([r.get("proxied", 0) for r in rs] or [0]), nprox), nprox == 0 or max([r.get("proxied", 0) for r in rs] or [0]) >= nprox // 2, "")
+    run.cov["proxied_connects"] = max([r.get("proxied", 0) for r in rs] or [0])
     # a nested call is a call of its own
     for i, r in list(zip(inputs, rs)):
         if "nested" in i and r.get("nested"):
